@@ -147,6 +147,9 @@ func (s *Share[E]) ToAdditive(to *unanimity.Unanimity) (*additive.Share[E], erro
 	if !to.Shareholders().Contains(s.id) {
 		return nil, sharing.ErrMembership.WithMessage("share ID %d is not in access structure", s.id)
 	}
+	if len(s.v) == 0 {
+		return nil, sharing.ErrArgument.WithMessage("share %d has no components", s.id)
+	}
 	group := algebra.StructureMustBeAs[algebra.Group[E]](slices.Collect(maps.Values(s.v))[0].Structure())
 	shareValue := group.OpIdentity()
 	for maxUnqualifiedSet, additiveShare := range s.v {
